@@ -308,6 +308,24 @@ def co_permutation(ctx, obs, rule='COPERM'):
             t = a.final_env.get(c.args[1].id)
             if t is not None and t.kind == 'Perm':
                 words.setdefault(t.o, []).append(c)
+    # scatters: buf[.., perm, ..] = old / buf[np.ix_(.., perm, perm)] = old put old entry i at position perm[i] - as a gather that is
+    # the INVERSE permutation
+    for st in ast.walk(f.node):
+        if isinstance(st, ast.Assign) and isinstance(st.targets[0], ast.Subscript):
+            sl = st.targets[0].slice
+            items = list(sl.elts) if isinstance(sl, ast.Tuple) else [sl]
+            names = []
+            for it in items:
+                if isinstance(it, ast.Call) and getattr(it.func, 'attr', getattr(it.func, 'id', '')) == 'ix_':
+                    names += [x for x in it.args if isinstance(x, ast.Name)]
+                elif isinstance(it, ast.Name):
+                    names.append(it)
+            for nm in names:
+                t = a.final_env.get(nm.id)
+                if t is not None and t.kind == 'Perm' and t.o != _order.SORTED and not (isinstance(st.value, ast.Call) and getattr(
+                        st.value.func, 'attr', getattr(st.value.func, 'id', '')) == 'arange'):
+                    words.setdefault(_order.winv(t.o), []).append(st)
+                    break
     con = 'rows, columns and all labels are gathered with one and the same permutation'
     if not words:
         obs.unk(rule, q, con, 'no gather by the permutation recognised', where(prog, f, f.node))
